@@ -919,9 +919,30 @@ InitPoolEffect(pre, e, post) ==
      /\ Sub("nothing_else", ChangedKeys(e.diff, "pool") = {q} /\ ChangedKeys(e.diff, "cfg") = {} /\ ChangedKeys(e.diff, "tier") = {}
                             /\ ChangedKeys(e.diff, "atier") = {} /\ ChangedKeys(e.diff, "pos") = {} /\ ChangedKeys(e.diff, "tick") = {})
 
+(* C20, user level: swap_quote_by_input_token / swap_quote_by_output_token (transfer fees of both mints
+   applied, no price limit) against what the trader really paid and received in a swap submitted
+   without a price limit; the slippage-adjusted bound is on the safe side of the estimate.           *)
+C20QuoteUser(pre, e, post) ==
+  LET u    == e.sdkUser
+      paid == 0 -- Delta(pre, post, InAcct(e))
+      got  == Delta(pre, post, OutAcct(e))
+  IN (u.present /\ Len(e.swaps) = 1 /\ e.swaps[1].done) =>
+     /\ Sub("sdk_succeeds_where_program_does", u.ok)
+     \* exact-in: the quote reports the SMALLEST amount whose fee-reduced value is what the pool takes (several
+     \* amounts can have the same fee-reduced value); submitting that amount instead gives the same swap
+     /\ Sub("pays_what_was_quoted",
+            IF e.args.exactIn
+            THEN u["in"] \preceq paid /\ TfExcluded(TfCfg(pre, (IF e.args.aToB THEN pre.pool[APool(e)].mintA ELSE pre.pool[APool(e)].mintB), e.epoch), u["in"])
+                                            \doteq Delta(pre, post, InVault(e))
+            ELSE u["in"] \doteq paid)
+     /\ Sub("receives_what_was_quoted", u.out \doteq got)
+     /\ Sub("same_total_fee", u.fee \doteq SumFee(e.swaps[1]))
+     /\ Sub("bound_on_safe_side", IF e.args.exactIn THEN u.bound \preceq u.out ELSE u["in"] \preceq u.bound)
+
 (* the per-event transition *)
 IxOK(pre, e, post) ==
   /\ Chk("C20", "sdk_quote", C20Quote(e))
+  /\ IF IsSwapName(e.name) THEN Chk("C20", "sdk_user_level_quote", C20QuoteUser(pre, e, post)) ELSE TRUE
   /\ Chk("C19", "params_in_bounds", C19State(post))
   /\ Chk("C19", "mint_admission", C19Admission(pre, e))
   /\ IF e.name \in {"initialize_pool", "initialize_pool_v2", "initialize_pool_with_adaptive_fee"}
